@@ -855,6 +855,35 @@ impl Gen {
                     },
                 }
             },
+            "b_keep" | "b_exec" | "b_drop" => {
+                let free = m.bs.iter().position(|x| x.is_none());
+                let live: Vec<usize> = m.bs.iter().enumerate().filter(|(_, x)| x.is_some()).map(|(i, _)| i).collect();
+                let want = if kind == "b_keep" && free.is_none() {
+                    "b_exec"
+                } else if kind != "b_keep" && live.is_empty() {
+                    "b_keep"
+                } else {
+                    kind
+                };
+                match want {
+                    "b_keep" => {
+                        let b = free.unwrap_or(0);
+                        if rng.chance(1, 2) {
+                            match self.build("chmod_b", m, rng) {
+                                Op::ChmodB { p, calls } => Op::ChmodBKeep { b, p, calls },
+                                other => other,
+                            }
+                        } else {
+                            match self.build("chown_b", m, rng) {
+                                Op::ChownB { p, calls } => Op::ChownBKeep { b, p, calls },
+                                other => other,
+                            }
+                        }
+                    },
+                    "b_exec" => Op::BExec { b: *rng.pick(&live[..]) },
+                    _ => Op::BDrop { b: *rng.pick(&live[..]) },
+                }
+            },
             "chmod_b_deferred" | "chown_b_deferred" => {
                 let t = self.p_target(m, rng, None);
                 let cwd = self.p_target(m, rng, Some(&[K::Dir]));
